@@ -24,7 +24,9 @@ SumDH(I, S) == IF S = {} THEN 0 ELSE LET v == CHOOSE x \in S : TRUE IN DeltaH(I,
 RECURSIVE SumDC(_, _)
 SumDC(I, S) == IF S = {} THEN 0 ELSE LET v == CHOOSE x \in S : TRUE IN DeltaCh(I, v) + SumDC(I, S \ {v})
 (* hydrogens bonded to nothing heavy on either side (H2, H+, H-) count as atoms on both sides *)
-TotalDeltaH(I)  == SumDH(I, Heavy(I))
+FreeHG(I) == {h \in HAtoms(I) : \A v \in Heavy(I) : I.oG[h][v] = 0}
+FreeHH(I) == {h \in HAtoms(I) : \A v \in Heavy(I) : I.oH[h][v] = 0}
+TotalDeltaH(I)  == SumDH(I, Heavy(I)) + Cardinality(FreeHH(I)) - Cardinality(FreeHG(I))
 TotalDeltaCh(I) == SumDC(I, INodes(I))
 SameElements(I) == \A v \in INodes(I) : I.tG[v][1] = I.tH[v][1]
 Conserved(I) == SameElements(I) /\ TotalDeltaH(I) = 0 /\ TotalDeltaCh(I) = 0
